@@ -129,7 +129,7 @@ func c01Direct(rc *RunCtx, configs int, logCalls bool) {
 				}
 			}
 			// honest attestations in each v style, also with more/less enabled than needed
-			for vs := 0; vs < 3; vs++ {
+			for vs := 0; vs < 4; vs++ {
 				att := ref.HonestAttestation(msg, signers, vs)
 				c01Judge(rc, msg, att, attesters, pubs, uint32(t), fmt.Sprintf("honest-v%d", vs), "honest", 0, logCalls)
 			}
